@@ -491,6 +491,8 @@ type GateBroker struct {
 	AfterHistory    func(ch string, opts centrifuge.HistoryOptions, pubs []*centrifuge.Publication, sp centrifuge.StreamPosition)
 	OnPublishJoin   func(ch string, info *centrifuge.ClientInfo)
 	OnPublishLeave  func(ch string, info *centrifuge.ClientInfo)
+	// RewritePosition, if set, may alter the stream position History reports (e.g. blank the epoch: a lagging replica).
+	RewritePosition func(ch string, sp centrifuge.StreamPosition) centrifuge.StreamPosition
 	SubscribeErr    func(ch string) error
 	UnsubscribeErr  func(ch string) error
 	// Intercept decides what happens to a publication handed over by the inner broker:
@@ -603,6 +605,9 @@ func (g *GateBroker) History(ch string, opts centrifuge.HistoryOptions) ([]*cent
 	pubs, sp, err := g.Inner.History(ch, opts)
 	if err == nil && g.AfterHistory != nil {
 		g.AfterHistory(ch, opts, pubs, sp)
+	}
+	if err == nil && g.RewritePosition != nil {
+		sp = g.RewritePosition(ch, sp)
 	}
 	return pubs, sp, err
 }
